@@ -48,7 +48,7 @@ def advance_part(ck, tier):
         mset = "MCM" if kind != "ensemble" else "{0, 1, 3, 12}"
         cfg = ("SPECIFICATION Spec\nCONSTANTS MSet <- %s\n Walkers = %d Len0 = %d MaxCalls = %d\nINVARIANT LenAgree\n"
                "INVARIANT ExactlyRequested\nINVARIANT Export\nCHECK_DEADLOCK FALSE\n" % ("MCM" if kind != "ensemble" else "MCE", walkers, len0, maxcalls))
-        mod = ("---- MODULE MC_Advance ----\nEXTENDS Advance, Json\nMCM == {0, 1, 7, 99, 100, 101, 250}\nMCE == {0, 1, 3, 12}\n"
+        mod = ("---- MODULE MC_Advance ----\nEXTENDS Advance, Json\nMCM == {0, 1, 7, 99, 100, 101, 201, 250, 351}\nMCE == {0, 1, 3, 12}\n"
                "Export == Len(calls) = MaxCalls => PrintT(ToJson([calls |-> calls, len |-> clen]))\n====\n")
         r = run_tlc("MC_Advance", cfg_text=cfg, extra_files={"MC_Advance.tla": mod}, workers=4)
         if r.violated:
